@@ -821,6 +821,20 @@ def on_worker_place(ctx, led, task, strategy):
         if other is not led and id(task) in other.residents:
             ctx.violate("C01", "task_on_two_workers", f"{s.uname} placed on {led.name} while resident on "
                         f"{other.name}", {})
+    # the strategy the worker is charged for must be the one the task was scheduled with (and will run, be
+    # timed and be logged under): a worker that admits the task under another of its strategies reserves
+    # the wrong quantities for it
+    cp = getattr(task, "current_placement", None)
+    chosen = cp.execution_strategy if cp is not None else None
+    if chosen is not None and chosen is not strategy:
+        sig = lambda st: (tuple(sorted(demand_of(st))), _us(st.runtime), st.batch_size)  # noqa
+        if sig(chosen) != sig(strategy):
+            ctx.violate("C01", "charged_for_another_strategy",
+                        f"{s.uname} was scheduled with strategy {sig(chosen)} but worker {led.name} was charged "
+                        f"for {sig(strategy)}", {"smaller": sum(q for _, _, q in demand_of(strategy)) <
+                                                 sum(q for _, _, q in demand_of(chosen))})
+            strategy_for_ledger = chosen
+        ctx.probe("c01_placed_strategy_compared")
     led.residents[id(task)] = (task, strategy)
     if isinstance(strategy, BatchStrategy):
         b = led.batches.setdefault(id(strategy), [strategy, set()])
@@ -880,6 +894,13 @@ def on_task_call_post(ctx, method, task, a, kw):
         ctx.rec("RELEASE", task=s.uname, t=s.release_time)
         if s.released_obs > 1:
             ctx.probe("released_twice")
+    elif method == "unschedule":
+        # a retracted / skipped plan must leave the SCHEDULED state (back to the state the task was scheduled
+        # from); a call that returns with the task still SCHEDULED is invisible to the state-diff above
+        if task.state.name == "SCHEDULED":
+            ctx.violate("C06", "unschedule_left_task_scheduled",
+                        f"{s.uname}: Task.unschedule() returned with the task still SCHEDULED (scheduled "
+                        f"{s.sched_count} time(s) before)", {"rescheduled_before": s.sched_count > 1})
     elif method == "schedule":
         pl = kw.get("placement", a[1] if len(a) > 1 else None)
         s.sched_count += 1
